@@ -1,0 +1,31 @@
+//go:build verif
+
+// Contracts for package footer, read by /verif/kvc (contract-based deductive verification).
+// Comment-only; excluded from every build without the `verif` tag.
+package footer
+
+// C11: the 68-byte table footer.  Layout (little endian): magic(8) version(4) timestamp(8) indexOffset(8) indexSize(4)
+// numEntries(4) minKeyOffset(4) maxKeyOffset(4) bloomOffset(8) bloomSize(4) padding(4) checksum(8) where the checksum is
+// xxhash64 of the first 60 bytes.
+//@ pure func fle32(d []byte, i int) int = d[i] + 256*d[i+1] + 65536*d[i+2] + 16777216*d[i+3]
+//@ pure func fle64(d []byte, i int) int = d[i] + 256*d[i+1] + 65536*d[i+2] + 16777216*d[i+3] + 4294967296*d[i+4] + 1099511627776*d[i+5] + 281474976710656*d[i+6] + 72057594037927936*d[i+7]
+//@ predicate FooterLayout(d []byte, f *Footer) = len(d) == 68 && fle64(d, 0) == f.Magic && fle32(d, 8) == f.Version && fle64(d, 12) == f.Timestamp % 18446744073709551616 && fle64(d, 20) == f.IndexOffset && fle32(d, 28) == f.IndexSize && fle32(d, 32) == f.NumEntries && fle32(d, 36) == f.MinKeyOffset && fle32(d, 40) == f.MaxKeyOffset && fle64(d, 44) == f.BloomFilterOffset && fle32(d, 52) == f.BloomFilterSize && fle64(d, 60) == f.Checksum
+
+// Encode lays the fields out and stores the checksum of the first 60 bytes.
+//@ func (*Footer).Encode
+//@   safety[C11]
+//@   requires f != nil
+//@   modifies f.Checksum
+//@   ensures[C11] fresh(result) && FooterLayout(result, f)
+//@   ensures[C11] f.Checksum == xxhash(bstr(result[:60]))
+
+// Decode on ARBITRARY bytes: no panic; success only for a 68+ byte input with the magic number and a matching checksum,
+// and then every field is exactly the stored one (nothing invented); a current-version footer decodes to its encoding.
+//@ func Decode
+//@   safety[C11]
+//@   modifies nothing
+//@   ensures[C11] err != nil ==> result0 == nil
+//@   ensures[C11] err == nil ==> result0 != nil && fresh(result0) && len(data) >= 68 && result0.Magic == FooterMagic && fle64(data, 0) == result0.Magic && fle32(data, 8) == result0.Version && fle64(data, 12) == result0.Timestamp % 18446744073709551616 && fle64(data, 20) == result0.IndexOffset && fle32(data, 28) == result0.IndexSize && fle32(data, 32) == result0.NumEntries && fle32(data, 36) == result0.MinKeyOffset && fle32(data, 40) == result0.MaxKeyOffset
+//@   ensures[C11] err == nil && result0.Version >= 2 ==> fle64(data, 44) == result0.BloomFilterOffset && fle32(data, 52) == result0.BloomFilterSize && fle64(data, 60) == result0.Checksum && result0.Checksum == xxhash(bstr(data[:60]))
+//@   ensures[C11] err == nil && result0.Version < 2 ==> result0.BloomFilterOffset == 0 && result0.BloomFilterSize == 0 && result0.Checksum == xxhash(bstr(data[:44]))
+//@   ensures[C11] len(data) >= 68 && fle64(data, 0) == FooterMagic && fle32(data, 8) >= 2 && fle64(data, 60) == xxhash(bstr(data[:60])) ==> err == nil
